@@ -1,6 +1,7 @@
 package main
 
 import (
+	"go/constant"
 	"fmt"
 	"go/ast"
 	"go/token"
@@ -34,6 +35,74 @@ func c17Run(r *Run) {
 	info := rp.TypesInfo
 	isReflectType := func(t types.Type) bool { return isNamed(t, "reflect", "Type") }
 	isReflectValue := func(t types.Type) bool { return isNamed(t, "reflect", "Value") }
+	// shape-independent form of KIND: in every converter (a function with a reflect.Type parameter whose
+	// first result is a reflect.Value) a returned value built with reflect.ValueOf is converted to that
+	// type parameter; unsupported kinds end in an error
+	for _, fd := range funcDecls(rp) {
+		if fd.Type.Results == nil || fd.Type.Results.NumFields() < 1 {
+			continue
+		}
+		sig, ok := info.Defs[fd.Name].Type().(*types.Signature)
+		if !ok || !isReflectValue(sig.Results().At(0).Type()) {
+			continue
+		}
+		var tparam types.Object
+		for i := 0; i < sig.Params().Len(); i++ {
+			if isReflectType(sig.Params().At(i).Type()) {
+				tparam = sig.Params().At(i)
+			}
+		}
+		if tparam == nil {
+			continue
+		}
+		fk := funcKey(rp, fd)
+		r.curRule = "C17-KIND"
+		n := 0
+		ast.Inspect(fd.Body, func(m ast.Node) bool {
+			if _, ok := m.(*ast.FuncLit); ok {
+				return false
+			}
+			rs, ok := m.(*ast.ReturnStmt)
+			if !ok || len(rs.Results) == 0 {
+				return true
+			}
+			res := ast.Unparen(rs.Results[0])
+			if id, isId := res.(*ast.Ident); isId {
+				obj := info.Uses[id]
+				ast.Inspect(fd.Body, func(k ast.Node) bool {
+					if as, ok := k.(*ast.AssignStmt); ok && len(as.Lhs) == 1 && len(as.Rhs) == 1 {
+						if lid, ok := as.Lhs[0].(*ast.Ident); ok && (info.Defs[lid] == obj || info.Uses[lid] == obj) {
+							res = ast.Unparen(as.Rhs[0])
+						}
+					}
+					return true
+				})
+			}
+			// only values built here with reflect.ValueOf are judged
+			built := false
+			ast.Inspect(res, func(k ast.Node) bool {
+				if c, ok := k.(*ast.CallExpr); ok {
+					if se, ok := ast.Unparen(c.Fun).(*ast.SelectorExpr); ok && se.Sel.Name == "ValueOf" {
+						if id, ok := ast.Unparen(se.X).(*ast.Ident); ok && id.Name == "reflect" {
+							built = true
+						}
+					}
+				}
+				return true
+			})
+			if !built {
+				return true
+			}
+			n++
+			key := fmt.Sprintf("%s#converts-to-parameter-type", fk)
+			if c17ConvertedTo(res, tparam.Name()) {
+				r.ok(key, rs.Pos(), "the value built for the Go parameter is converted to the parameter's exact type")
+			} else {
+				r.bad(key, rs.Pos(), fmt.Sprintf("returns %s without converting it to %s: reflect.Value.Call panics for any parameter whose type is not exactly the static Go type (e.g. int64, or a named string type)", exprStr(res), tparam.Name()))
+			}
+			return true
+		})
+	}
 	for _, fd := range funcDecls(rp) {
 		fk := funcKey(rp, fd)
 		ast.Inspect(fd.Body, func(n ast.Node) bool {
@@ -212,8 +281,69 @@ func c17Run(r *Run) {
 	// NARROW: utils generic converters
 	r.curRule = "C17-NARROW"
 	uinfo := up.TypesInfo
+	// scope: the generic converters and the package helpers they call
+	inScope := map[*ast.FuncDecl]bool{}
+	{
+		byObj := map[types.Object]*ast.FuncDecl{}
+		for _, fd := range funcDecls(up) {
+			byObj[uinfo.Defs[fd.Name]] = fd
+		}
+		var work []*ast.FuncDecl
+		for _, fd := range funcDecls(up) {
+			if strings.HasPrefix(fd.Name.Name, "convertFrom") {
+				inScope[fd] = true
+				work = append(work, fd)
+			}
+		}
+		for len(work) > 0 {
+			fd := work[0]
+			work = work[1:]
+			ast.Inspect(fd.Body, func(n ast.Node) bool {
+				if c, ok := n.(*ast.CallExpr); ok {
+					if h := byObj[calleeOf(uinfo, c)]; h != nil && !inScope[h] {
+						inScope[h] = true
+						work = append(work, h)
+					}
+				}
+				return true
+			})
+		}
+	}
+	// a range predicate: a package function with an error result that compares its first parameter
+	rangePredicate := func(c *ast.CallExpr) bool {
+		f, ok := calleeOf(uinfo, c).(*types.Func)
+		if !ok || f.Pkg() != up.Types {
+			return false
+		}
+		sig := f.Type().(*types.Signature)
+		if sig.Results().Len() != 1 || sig.Results().At(0).Type().String() != "error" || sig.Params().Len() == 0 {
+			return false
+		}
+		for _, fd := range funcDecls(up) {
+			if uinfo.Defs[fd.Name] != f {
+				continue
+			}
+			p0 := sig.Params().At(0)
+			cmp := false
+			ast.Inspect(fd.Body, func(n ast.Node) bool {
+				if be, ok := n.(*ast.BinaryExpr); ok {
+					switch be.Op {
+					case token.LSS, token.LEQ, token.GTR, token.GEQ:
+						for _, side := range []ast.Expr{be.X, be.Y} {
+							if id, ok := ast.Unparen(side).(*ast.Ident); ok && uinfo.Uses[id] == p0 {
+								cmp = true
+							}
+						}
+					}
+				}
+				return true
+			})
+			return cmp
+		}
+		return false
+	}
 	for _, fd := range funcDecls(up) {
-		if !strings.HasPrefix(fd.Name.Name, "convertFrom") {
+		if !inScope[fd] {
 			continue
 		}
 		fk := funcKey(up, fd)
@@ -226,6 +356,14 @@ func c17Run(r *Run) {
 				for i, st := range list {
 					if pos >= st.Pos() && pos < st.End() {
 						for _, prev := range list[:i] {
+							// err = rangeCheck(x, lo, hi …) with the error handed back by the function
+							if as, ok := prev.(*ast.AssignStmt); ok && len(as.Rhs) == 1 && len(as.Lhs) == 1 {
+								if rc, ok := ast.Unparen(as.Rhs[0]).(*ast.CallExpr); ok && len(rc.Args) > 0 && exprStr(ast.Unparen(rc.Args[0])) == x && rangePredicate(rc) {
+									if eid, ok := as.Lhs[0].(*ast.Ident); ok && returnsErrVar(fd, eid.Name) {
+										found = true
+									}
+								}
+							}
 							ifs, ok := prev.(*ast.IfStmt)
 							if !ok {
 								continue
@@ -307,6 +445,49 @@ func c17Run(r *Run) {
 			if !narrow {
 				return true
 			}
+			// an operand that only ever holds small constants (bit := 0; if b { bit = 1 }) fits every integer type
+			if id, ok := ast.Unparen(c.Args[0]).(*ast.Ident); ok {
+				obj := uinfo.Uses[id]
+				n, small := 0, true
+				ast.Inspect(fd.Body, func(k ast.Node) bool {
+					switch x := k.(type) {
+					case *ast.AssignStmt:
+						for i, l := range x.Lhs {
+							lid, ok := l.(*ast.Ident)
+							if !ok || (uinfo.Defs[lid] != obj && uinfo.Uses[lid] != obj) {
+								continue
+							}
+							n++
+							if len(x.Rhs) != len(x.Lhs) || x.Tok == token.ADD_ASSIGN || x.Tok == token.SUB_ASSIGN || x.Tok == token.MUL_ASSIGN {
+								small = false
+								continue
+							}
+							cv, ok := uinfo.Types[x.Rhs[i]]
+							if !ok || cv.Value == nil {
+								small = false
+								continue
+							}
+							if v, exact := constant.Int64Val(constant.ToInt(cv.Value)); !exact || v < 0 || v > 127 {
+								small = false
+							}
+						}
+					case *ast.IncDecStmt:
+						if lid, ok := x.X.(*ast.Ident); ok && uinfo.Uses[lid] == obj {
+							small = false
+						}
+					case *ast.UnaryExpr:
+						if x.Op == token.AND {
+							if lid, ok := x.X.(*ast.Ident); ok && uinfo.Uses[lid] == obj {
+								small = false
+							}
+						}
+					}
+					return true
+				})
+				if n > 0 && small {
+					return true
+				}
+			}
 			key := fmt.Sprintf("%s#narrow:%s(%s)", fk, tb.Name(), ab.Name())
 			if guardedAt(c.Pos(), exprStr(ast.Unparen(c.Args[0]))) {
 				r.ok(key, c.Pos(), "narrowing conversion with a range check in the function")
@@ -340,4 +521,26 @@ func c17ConvertedTo(e ast.Expr, target string) bool {
 		}
 		return false
 	}
+}
+
+// returnsErrVar: the function has `if <name> != nil { return …, <name> }`.
+func returnsErrVar(fd *ast.FuncDecl, name string) bool {
+	found := false
+	ast.Inspect(fd.Body, func(n ast.Node) bool {
+		is, ok := n.(*ast.IfStmt)
+		if !ok {
+			return true
+		}
+		be, ok := ast.Unparen(is.Cond).(*ast.BinaryExpr)
+		if !ok || be.Op != token.NEQ || exprStr(be.X) != name || exprStr(be.Y) != "nil" {
+			return true
+		}
+		for _, st := range is.Body.List {
+			if rs, ok := st.(*ast.ReturnStmt); ok && len(rs.Results) > 0 && exprStr(rs.Results[len(rs.Results)-1]) == name {
+				found = true
+			}
+		}
+		return true
+	})
+	return found
 }
